@@ -35,6 +35,12 @@ Cases ==
     \* is wound the other way); a detected upper side is then the mirrored one
     {[m |-> "airfoil", op |-> "config", chord |-> c, camber |-> h, thick |-> 6, le |-> "intersect", te |-> "fit",
       orient |-> IF f = "detect" THEN "tmax" ELSE "dir", face |-> f, nside |-> 200, open |-> FALSE, mirror |-> 1] : c \in Chords, h \in Cambers \ {0}, f \in {"detect", "upper"}} \cup
+    \* a coarse analysis tolerance (2e-3 chord, above the nose radius of the thin-nose profile): the search must still terminate
+    {[m |-> "airfoil", op |-> "config", chord |-> c, camber |-> h, thick |-> 6, le |-> "intersect", te |-> "intersect",
+      orient |-> "tmax", face |-> "upper", nside |-> 200, open |-> FALSE, prof |-> 1, tolq |-> 2000] : c \in Chords, h \in Cambers} \cup
+    \* the moved variant 5e5 chords from the origin (fit-radius and intersect edges: their convergence tests must not depend on the place)
+    {[m |-> "airfoil", op |-> "config", chord |-> c, camber |-> h, thick |-> 6, le |-> p[1], te |-> p[2],
+      orient |-> "tmax", face |-> "upper", nside |-> 200, open |-> FALSE, farpose |-> 1] : c \in Chords, h \in Cambers, p \in {<<"fit", "intersect">>, <<"intersect", "fit">>}} \cup
     {[m |-> "airfoil", op |-> "livelock"]}
 Init == case \in Cases
 Next == UNCHANGED case
